@@ -163,6 +163,9 @@ class ModelServer(_RecMixin, UDSServer):
         sid = pdu[0]
         c = self.cls(truth, sid)
         code, raw = class_answer(c, sid, len(pdu) - 1)
+        if pdu == b"\x22\xf1\x86" and class_impl(c):
+            # no readable session: an ECU that has 0x22 does not know this identifier
+            code, raw = NEG, bytes([0x7F, 0x22, 0x31])
         if self.mutant == "fake-swaps-len-and-sns" and code == LEN:
             raw = bytes([0x7F, sid, NRC_SNS])
         if c[0] == "Ans" and c[4] and code in (POS, NEG):
